@@ -98,7 +98,7 @@ class C17(core.Check):
     required_buckets = {b: 3 for b in ['nesting:1', 'nesting:2', 'nesting:3', 'dirs:1', 'dirs:2', 'dirs:3', 'class:metamorphic',
                                        'class:zone-region-continuation', 'class:file-label-isolation',
                                        'neg:included-twice', 'neg:transitively-twice', 'neg:self-include', 'neg:missing-file',
-                                       'neg:ambiguous-name', 'include-line:decorated', 'include-while-muted', 'include-at-mute-depth>=2', 'files:3+', 'neg:file-label-of-includer',
+                                       'neg:ambiguous-name', 'class:include-in-uncompiled-branch', 'include-line:decorated', 'include-while-muted', 'include-at-mute-depth>=2', 'files:3+', 'neg:file-label-of-includer',
                                        'neg:file-label-of-included', 'neg:file-label/include-top', 'neg:file-label/include-after-global-label',
                                        'neg:file-label/include-after-local-label', 'neg:file-label/include-after-org',
                                        'neg:file-label/include-nested']}
@@ -251,6 +251,27 @@ class C17(core.Check):
                                            'include-while-muted' if depth else 'include-unmuted',
                                            'include-at-mute-depth>=2' if depth >= 2 else 'include-at-mute-depth<2'})}
 
+    def dead_include_cases(self):
+        """an #include inside a branch that is not compiled has no effect at all: it may name a file that was already
+        included, that does not exist, or that is ambiguous"""
+        isa = gen_prog.layout_isa(16)
+        fn, itext = isamod.render_isa(isa, 'json')
+        a_txt = 'in_a:\n.byte $A1, $A2\n'
+        for opener, closer in (('#if 0', '#endif'), ('#ifdef C17_NOT_DEFINED', '#endif'), ('#if 1\n.byte $0F\n#else', '#endif'),
+                               ('#ifndef C17_NOT_DEFINED\n.byte $0E\n#elif 1', '#endif'), ('#if 0\n#if 1', '#endif\n#endif')):
+            for dead in ('#include "a.asm"', '#include "nothere.asm"', '#include "a.asm"\n#include "a.asm"', '#include "p.asm"'):
+                for first in (True, False):
+                    main = ['.byte 1'] + (['#include "a.asm"'] if first else []) + [opener, dead, '.byte $EE', closer, '.byte 2'] + \
+                        ([] if first else ['#include "a.asm"']) + ['.2byte in_a']
+                    live_extra = [l_ for l_ in opener.split('\n') if l_.startswith('.byte')]
+                    flat = ['.byte 1'] + ([a_txt.strip()] if first else []) + live_extra + ['.byte 2'] + ([] if first else [a_txt.strip()]) + ['.2byte in_a']
+                    yield {'runs': [{'files': {fn: itext, 'p.asm': '\n'.join(main) + '\n', 'a.asm': a_txt},
+                                     'argv': ['compile', '-c', fn, 'p.asm', '-o', 'out.bin'], 'probes': ['steps', 'files'], 'step_limit': 500000},
+                                    {'files': {fn: itext, 'p.asm': '\n'.join(flat) + '\n'},
+                                     'argv': ['compile', '-c', fn, 'p.asm', '-o', 'out.bin'], 'probes': ['steps'], 'step_limit': 500000}],
+                           'meta': {'class': 'metamorphic', 'image': None, 'kind': 'ACCEPT', 'includes': ['a.asm']},
+                           'tags': ['class:include-in-uncompiled-branch', 'dirs:1', 'nesting:1']}
+
     def negative(self, rng, kind):
         isa = gen_prog.layout_isa(16)
         fn, itext = isamod.render_isa(isa, 'json')
@@ -333,6 +354,7 @@ class C17(core.Check):
                 found += 1
                 yield c
         yield from self.mute_depth_cases()
+        yield from self.dead_include_cases()
         negs = ['included-twice', 'transitively-twice', 'self-include', 'missing-file', 'ambiguous-name']
         for i in range(25 if tier == 'quick' else 100):
             rng = core.rng_for(0, self.pid, 'neg', i)
